@@ -23,7 +23,7 @@ ASSUMPTIONS = [
     "lines longer than the tool's 1024-byte line buffer are compared up to the tool's own length",
 ]
 TIERS = {
-    "quick": {"cases": 6000, "flavours": ("asan",), "cap_s": 600},
+    "quick": {"cases": 12000, "flavours": ("asan",), "cap_s": 600},
     "thorough": {"cases": 250000, "flavours": ("asan",), "cap_s": 3 * 3600},
 }
 SHRINK_LISTS = ["walk", "stack"]
